@@ -302,6 +302,50 @@ MultiAssignProg(p, q, first) ==
        VarS("g", CallE(Id("mk"), <<>>)), PV(1, CallE(Id("g"), <<>>)), PV(2, CallE(Id("g"), <<>>)), ES(CallE(Id("g"), <<>>))>>
 MultiAssigns(u) == {MultiAssignProg(p, q, first) : p \in 1..3, q \in 1..3, first \in BOOLEAN} \ {MultiAssignProg(p, p, f) : p \in 1..3, f \in BOOLEAN}
 
+\* read-modify-write statements whose right-hand side CHANGES the target while it is evaluated: x op= E reads x
+\* before E runs, x = x op E and x = E op x read x when the operand is reached (left to right), a[0] op= E reads
+\* the element before E runs.  The target is a global, a local, a variable captured from the enclosing function,
+\* or a parameter; the effect is a call of a closure bound to a name or of a function literal written in place.
+SetIdxS(a, i, op, e) == [k |-> "setidx", a |-> a, i |-> i, op |-> op, e |-> e]
+UpdateProg(place, form, op, eff) ==
+  LET onList == form = "idx"
+      target == IF onList THEN "a" ELSE "x"
+      init == IF onList THEN ListE(<<I(7)>>) ELSE I(7)
+      bumpBody == <<(IF onList THEN SetIdxS(Id("a"), I(0), "=", I(10)) ELSE AssignS("x", "=", I(10))), Ret(I(3))>>
+      E == IF eff = "named" THEN CallE(Id("bump"), <<>>) ELSE CallE(FuncE("", <<>>, bumpBody), <<>>)
+      bumpDecl == IF eff = "named" THEN <<VarS("bump", FuncE("", <<>>, bumpBody))>> ELSE <<>>
+      upd == CASE form = "assign" -> AssignS("x", op, E)
+               [] form = "binleft" -> AssignS("x", "=", Bin(op, Id("x"), E))
+               [] form = "binright" -> AssignS("x", "=", Bin(op, E, Id("x")))
+               [] form = "idx" -> SetIdxS(Id("a"), I(0), op, E)
+      obs == Id(target)
+      run(params, body, args) == <<VarS("run", FuncE("", params, body)), PV(1, CallE(Id("run"), args)), ES(I(0))>>
+  IN CASE place = "global" -> <<VarS(target, init)>> \o bumpDecl \o <<upd, PV(1, obs), ES(I(0))>>
+       [] place = "local" -> run(<<>>, <<VarS(target, init)>> \o bumpDecl \o <<upd, Ret(obs)>>, <<>>)
+       [] place = "captured" -> run(<<>>, <<VarS(target, init)>> \o bumpDecl \o
+                                       <<VarS("inner", FuncE("", <<>>, <<upd, Ret(obs)>>)), Ret(CallE(Id("inner"), <<>>))>>, <<>>)
+       [] place = "param" -> run(<<Param(target)>>, bumpDecl \o <<upd, Ret(obs)>>, <<init>>)
+Updates(u) == {UpdateProg(place, fo[1], fo[2], eff) :
+                 place \in {"global", "local", "captured", "param"}, eff \in {"named", "inplace"},
+                 fo \in ({"assign", "idx"} \X {"+=", "-=", "*=", "/="}) \cup ({"binleft", "binright"} \X {"+", "-", "*"})}
+
+\* strings index, slice, measure, iterate and test membership by CODE POINT: strings with two-, three- and
+\* four-byte characters x every index, every pair of slice bounds (absent = 99), len, range, in
+StrE(cps) == [k |-> "str", v |-> cps]
+UniStrings == {<<104, 233, 108>>, <<26085, 26412>>, <<128512, 120>>, <<233>>}
+SliceE(a, lo, hi) == [k |-> "slice", a |-> a, haslo |-> lo # 99, hashi |-> hi # 99,
+                      lo |-> IF lo = 99 THEN NilE ELSE I(lo), hi |-> IF hi = 99 THEN NilE ELSE I(hi)]
+RangeS(vars, c, body) == [k |-> "range", style |-> "range", vars |-> vars, c |-> c, body |-> body]
+StrProgs(u) ==
+  UNION {
+    {<<VarS("s", StrE(cps)), PV(1, [k |-> "idx", a |-> Id("s"), b |-> I(i)]), ES(I(0))>> : i \in -Len(cps)..Len(cps)} \cup
+    {<<VarS("s", StrE(cps)), PV(1, SliceE(Id("s"), lo, hi)), ES(I(0))>> :
+        lo \in (-1..Len(cps)) \cup {99}, hi \in (-1..(Len(cps) + 1)) \cup {99}} \cup
+    {<<VarS("s", StrE(cps)), PV(1, CallE(Id("len"), <<Id("s")>>)),
+       RangeS(<<"i", "c">>, Id("s"), <<PV(2, ListE(<<Id("i"), Id("c"), [k |-> "in", a |-> Id("c"), b |-> Id("s"), neg |-> FALSE]>>))>>),
+       PV(3, [k |-> "in", a |-> Id("s"), b |-> Id("s"), neg |-> FALSE]), ES(I(0))>>}
+    : cps \in UniStrings}
+
 \* only well-scoped scenarios: the innermost function of a chain of depth d can see v_1 .. v_d
 Closures(maxd) == UNION {{ClosureProg(d, rd, wr, route, twice, ps[1], ps[2]) :
                             rd \in 1..d, wr \in 1..d, route \in Routes, twice \in BOOLEAN,
